@@ -430,6 +430,17 @@ pub fn gen_case(rng: &mut Rng, id: usize, opts: Opts, with_includes: bool) -> PC
         let mut s = String::new(); let mut m = vec![]; render(&items, &mut s, &mut m);
         files.insert(refs[k].0.clone(), items); texts.insert(refs[k].0.clone(), s);
     }
+    // decoys: the same name also present where the search must NOT take it from — under an include path when the name exists as given
+    // (cwd first), or in the other include path (the first include path that has it wins)
+    for (k, (stored, refname)) in refs.clone().iter().enumerate() {
+        if !rng.chance(1, 3) { continue; }
+        let decoy = if stored == refname { format!("{}/inc{}/{}", dir, rng.below(2), refname) }
+                    else if stored.contains("/inc0/") { stored.replace("/inc0/", "/inc1/") } else { stored.replace("/inc1/", "/inc0/") };
+        if files.contains_key(&decoy) { continue; }
+        let items = vec![It::Tok(format!("decoy{}x{}", id, k)), It::Ws("\n".into())];
+        let mut s = String::new(); let mut m = vec![]; render(&items, &mut s, &mut m);
+        files.insert(decoy.clone(), items); texts.insert(decoy, s);
+    }
     let mut names: Vec<String> = refs.iter().map(|x| x.1.clone()).collect();
     if opts.errors && rng.chance(1, 20) { names.push("missing.svh".into()); }
     let mut g = G { rng, n: counter, depth: 0, incs: names, defs: vec![], obj: obj0, opts };
